@@ -32,6 +32,11 @@ func partSysBytes(c *vfw.Ctx, t *testing.T) {
 	if c.Next() && !c.Expired() {
 		checkSysBytes(c, t, 0, false, sysDraws)
 	}
+	if !hsms.VerifC06Hook || !hsmsss.VerifCoreHook {
+		c.Add("hook_unavailable:sysbytes-counter", 1)
+		c.Assume("POSITIONED SYSTEM-BYTES RUNS SKIPPED: the harness export that positions the counter does not compile against this tree")
+		return
+	}
 	for _, st := range sysStarts {
 		if c.Next() && !c.Expired() {
 			checkSysBytes(c, t, st, true, sysEdgeDraws)
